@@ -276,6 +276,19 @@ func (i *interpreter) freeChoice(n int, kind byte) int {
 	if n == 1 {
 		return 0
 	}
+	if i.cfg.Concrete != nil && i.cfg.FreeChoices != nil {
+		// interpreter-side replay: free choices (schedule, select, crash) come from the recorded
+		// path, in order; data-dependent decisions do not exist in a concrete run
+		if i.freeIdx < len(i.cfg.FreeChoices) {
+			d := i.cfg.FreeChoices[i.freeIdx]
+			i.freeIdx++
+			i.trail = append(i.trail, d)
+			if d.Choice < n {
+				return d.Choice
+			}
+		}
+		return 0
+	}
 	d := len(i.trail)
 	if d < len(i.prefix) {
 		i.trail = append(i.trail, i.prefix[d])
